@@ -301,3 +301,14 @@ CLAIMS["C15"]["note"] += (" Refused calls are the documented error cases only; n
 
 CLAIMS["C05"]["text"] += (" Address sets also contain DNS names with several records and /dnsaddr names whose TXT entries carry a /p2p suffix (optionally duplicating a plainly known address). An eighth oracle (no starvation) demands that a caller that ran into its own deadline or the dial timeout was not left with nothing in flight "
     "during its last two seconds while one of its candidates - never failed anywhere in the case, no cap binding - had never been handed to a transport.")
+
+CLAIMS["C01"]["text"] += (" Also generated: a correctly signing remote that presents its identity key in non-canonical but valid encodings (unknown protobuf fields, reordered/repeated fields, over-long varints, high enum bits, uncompressed/hybrid secp256k1 points, BER lengths) inside the Noise payload and the TLS certificate extension, "
+    "for all four key types, both verifying roles and every expected-peer setting; whatever completes must report the canonical peer ID of the key that signed.")
+CLAIMS["C10"]["text"] += (" Outbound gating is checked for every entry point that can start a dial, not only DialPeer: Network.NewStream's implicit dial and Connect/NewStream of a real BasicHost on that swarm, with the same audit.")
+CLAIMS["C11"]["text"] += (" The connection set between the relay host and a reserving peer is generated: direct and limited connections to the same peer coexist and close one or several at a time in generated orders; once a peer has no non-limited connection left its reservation is gone whatever limited connections remain "
+    "(tag removed, slot no longer counted, a well-formed CONNECT to it answered NO_RESERVATION).")
+CLAIMS["C12"]["text"] += (" Connectedness and the published events are also checked with connections in the closing state (transport reports IsClosed while the swarm still lists the conn): a closing direct conn next to a live limited one must read Limited, only-closing conns NotConnected, at every quiescence point.")
+CLAIMS["C12"]["note"] += (" After a silent closing the last event may lag until the swarm next adds or removes a conn of that peer; the closing state is modelled by the harness' conn wrapper.")
+CLAIMS["C15"]["text"] += (" Emitters of one event type may disagree on Stateful (stateful then plain, plain then stateful, closed in between, opened mid-history): a type is stateful once any emitter opened with Stateful was returned and stays so while the type is in use; a later subscriber first receives the most recent earlier event whoever emitted it.")
+CLAIMS["C06"]["text"] += (" A second Swarm.Close call may race with or follow the first: whichever Close call returns first must not return before the notifications.")
+CLAIMS["C06"]["note"] += (" In cases with a second Close call or transient notifiees callbacks linger by yielding instead of sleeping and schedule points do not sleep.")
